@@ -59,6 +59,18 @@ CHECKS = {
    "complete enumeration of the codec domains themselves (all 2^32 codes in thorough; all byte strings up to length 3; all strings up to length 6 over a decoder alphabet)",
    "Code text round trip and 4xx/5xx status for every value below 2^20, above 2^32-2^20 and around every power of two (quick) or all 2^32 values (thorough); UnmarshalText rejects every string of length <= 3 over 40 symbols and every single-character edit of each name that is neither a name nor code_<number>; the gRPC percent-encoding round-trips every byte string of length <= 3 (16.8 M) with printable-ASCII output, its decoder is total on every string of length <= 6 over {%,0,A,f,G,space,0xFF,a}; every code returned by a real unary Connect handler reaches the wire as 4xx/5xx; no operation panics.",
    "unexported functions reached through overlay-only exported wrappers; code_<signed or in-range number> forms are not judged"),
+ "C05": ("model_checking", "DESIGN.md 4/C05 and appendix A",
+   "program enumeration on the real library decoded by an independent strict reference codec (refwire), plus exhaustive enumeration of the reference codec's legal encoding variations replayed against the implementation",
+   "(i) Handler programs {0..2 headers, 0..2 trailers, k messages, nil or error with message class and details} and client programs x protocols x codecs x compression settings x RPC kinds run on the real library; the recorded request and response bytes are decoded by refwire, an independent strict implementation of the three protocols: no problem may be reported (HTTP 200 and exactly one grpc-status in the right place, exactly one end-of-stream envelope with nothing after it, JSON error under the code's status, echoed Content-Type, compressed flag only with a named algorithm) and the decoded messages, status, error, details and metadata must equal what the application supplied. (ii) refwire encodes conformant responses with every combination of the applicable legal variations and conformant requests; each such reference trace is replayed against the real client / handler, which must accept it and decode the same values.",
+   "refwire encodes the protocol documents as of the pinned commit (appendix A) and is self-checked (encode -> strict decode) on every generated peer; final-spec forms the pinned documents do not define are not generated"),
+ "C06": ("model_checking", "DESIGN.md 4/C06",
+   "grammar-bounded exhaustive enumeration of hostile HTTP responses (deviation-bounded product of menus plus all short byte strings) served to the real client",
+   "A fake peer answers the real client with every combination of at most 2 (quick) / 3 (thorough) simultaneous deviations from a valid response over status, Content-Type, encoding, Grpc-Status in headers and trailers, Grpc-Message, details blob and ~45 body shapes, plus every byte string of length <= 4 (quick) / 6 (thorough) over a framing alphabet as the whole body, in every protocol, codec and RPC kind (8.6e4 quick, 2.5e6 thorough). Each call must terminate (decided by bubble quiescence), not panic, and either succeed or return a *connect.Error with a non-zero code; non-200 responses without a protocol-level error must map to the HTTP-status table; metadata lookups must be case-insensitive whatever casing the peer used.",
+   "client runs with a 64 KiB read limit as a memory guard for lying length prefixes; which of several contradictory statuses wins is not asserted"),
+ "C07": ("model_checking", "DESIGN.md 4/C07",
+   "grammar-bounded exhaustive enumeration of hostile HTTP requests (deviation-bounded product of menus plus all short byte strings) into the real Handler.ServeHTTP, judged by the reference decoder",
+   "Every combination of at most 2 (quick) / 3 (thorough) simultaneous deviations from a valid request over method, HTTP version, Content-Type, encoding, accept list, timeout string, ~20 body shapes and handler read limit, plus every byte string of length <= 4 / 6 over a framing alphabet as the body, for every protocol, codec and RPC kind (6e4 quick, 2.2e6 thorough). ServeHTTP must return, not panic, answer with a response that refwire accepts for the selected protocol or a bare 405/415/505, run user code at most once and only with messages that decode from the request, use the documented codes (unimplemented for unknown compression, invalid_argument for bad timeouts, undecodable payloads and oversize messages) and never answer malformed framing as success.",
+   "requests are handed to ServeHTTP directly; unknown request flags, trailing bytes after a unary message and zero-length payloads under any codec/flag are recorded but not judged"),
 }
 
 PENDING = {
